@@ -5,6 +5,7 @@ import GrVerif.Proofs.ClassMap
 import GrVerif.Proofs.SilfLoad
 import GrVerif.Proofs.CodeLoop
 import GrVerif.Proofs.RulesLoad
+import GrVerif.Proofs.GlyphLoad
 import GrVerif.Props.C13
 import GrVerif.Props.C14
 /-!
@@ -174,7 +175,41 @@ theorem accepted_code_class_lookups_in_bounds (l : CodeLoad.Limits) (constraint 
     rw [hl] at this
     exact ⟨(class_lookups_in_bounds m hm _ x this.1).2, (class_lookups_in_bounds m hm _ x this.2).1⟩
 
+/-- **glyph attributes: `Gloc`, `Glat`, `GlyphCache::Loader` and `sparse`** – for any bytes as the two tables and any glyph count of
+`maxp`, whether glyphs are loaded on demand or all at once: the headers (with the count of attributed glyphs derived in wrapping
+`size_t` arithmetic), the two offsets of a glyph, the tests on them, the octabox header and the sub-boxes of a version 3 `Glat`, and the
+run-length entries the `_glat_iterator`s walk are read inside the tables; `sparse`'s constructor writes, in both passes, inside the one
+allocation whose size the first pass computed; and on the attributes of every glyph the cache hands out `sparse::operator[]` reads, for
+every key, inside that allocation (or the static empty chunk) -/
+theorem glyph_attributes_total (gloc glat : List Nat) (numGlyphsGraphics : Nat) (preload : Bool) (gids : List Nat)
+    (hb : ∀ x ∈ gloc, x < 256) (hs : gloc.length < 18446744073709551616) :
+    ∃ r, glyphCache gloc glat numGlyphsGraphics preload gids = .ok r ∧
+      ∀ c, r = some c → ∀ a ∈ c.glyphs, ∀ s bx, a = GlyphAns.loaded s bx → ∀ k, ∃ v, s.get k = .ok v := by
+  obtain ⟨r, e, h⟩ := glyphCache_total gloc glat numGlyphsGraphics preload gids hb hs
+  refine ⟨r, e, fun c hc a ha s bx hs k => ?_⟩
+  have := h c hc a ha
+  rw [hs] at this
+  exact sparse_get_in_bounds s this k
+
+/-- `sparse` on its own: for every sequence of (key, value) pairs the constructor stays inside its allocation, and every look-up on
+what it built is in bounds -/
+theorem sparse_total (pairs : List (Nat × Nat)) :
+    ∃ r, sparseBuild pairs = .ok r ∧ ∀ s, r = some s → ∀ k, ∃ v, s.get k = .ok v := by
+  obtain ⟨r, e, h⟩ := sparseBuild_total pairs
+  exact ⟨r, e, fun s hs k => sparse_get_in_bounds s (h s hs) k⟩
+
 /-! ### non-vacuity -/
+/-- attributes 1 ↦ 30, 2 ↦ 7, 50 ↦ 9 (two chunks of 48 keys): present keys answer their values, absent ones and keys beyond the last
+chunk answer 0; keys out of order are refused -/
+example : (match sparseBuild [(1, 30), (2, 7), (5, 0), (50, 9)] with
+    | .ok (some s) => (s.nchunks, s.values, [s.get 0, s.get 1, s.get 2, s.get 5, s.get 50, s.get 51, s.get 96, s.get 65535])
+    | _ => (0, [], [])) = (2, [30, 7, 9], [.ok 0, .ok 30, .ok 7, .ok 0, .ok 9, .ok 0, .ok 0, .ok 0]) := by decide +kernel
+example : sparseBuild [(3, 1), (3, 2)] = .ok none := by decide +kernel
+/-- a two-glyph version 1 `Glat` (glyph 0: attribute 1 = 30; glyph 1: attributes 2,3 = 5,6) behind a short-format `Gloc` -/
+example : (match glyphCache [0, 1, 0, 0, 0, 0, 0, 4, 0, 4, 0, 8, 0, 14] [0, 1, 0, 0, 1, 1, 0, 30, 2, 2, 0, 5, 0, 6] 2 false [0, 1, 2] with
+    | .ok (some c) => (c.numGlyphs, c.numAttrs, c.glyphs.map fun a => match a with | .loaded s _ => [s.get 1, s.get 2, s.get 3] | _ => [])
+    | _ => (0, 0, [])) = (2, 4, [[.ok 30, .ok 0, .ok 0], [.ok 0, .ok 5, .ok 6], []]) := by decide +kernel
+
 /-- an action (`PUT_GLYPH 3; NEXT; PUT_COPY -1; NEXT; RET_ZERO` for a two-slot rule) is accepted with one `TEMP_COPY` put in front:
 the first slot is changed and later referenced -/
 example : (match CodeLoad.load { preContext := 0, ruleLength := 2, classes := 5, glyfAttrs := 1, features := 1, numUser := 0 } false 2 [59, 0, 3, 25, 30, 255, 25, 49] with
